@@ -17,11 +17,11 @@ use std::sync::Arc;
 use std::task::{Context, Poll, Waker};
 
 #[derive(Clone, Debug)]
-struct Stage {
-    kind: String,
-    flav: String,
-    arg: String,
-    by_self: bool,
+pub(crate) struct Stage {
+    pub kind: String,
+    pub flav: String,
+    pub arg: String,
+    pub by_self: bool,
 }
 
 /// transparent stream wrapper recording every item
@@ -44,7 +44,7 @@ impl<I> Unpin for Tap<I> {}
 type Limits = Vec<Rc<RefCell<crate::m_adapt::ScriptInner<usize>>>>;
 
 /// attach one stage to an observer; None values = purely dynamic (nothing returned)
-fn attach_one<O, I>(obs: O, st: &Stage, ls: ScriptStream<usize>) -> (Option<Vector<u32>>, BoxStream<I>)
+pub(crate) fn attach_one<O, I>(obs: O, st: &Stage, ls: ScriptStream<usize>) -> (Option<Vector<u32>>, BoxStream<I>)
 where
     I: Item + VectorDiffContainer<Element = u32>,
     O: VectorObserver<u32>,
@@ -89,6 +89,10 @@ where
             let (v, s) = obs.filter_map(move |x: u32| if passes(mask, x) { Some(x + 100) } else { None });
             (Some(v), unsafe_cast::<I, _>(Box::pin(s)))
         }
+        ("sort", _) => {
+            let (v, s) = obs.sort();
+            (Some(v), Box::pin(s))
+        }
         _ => panic!("bad stage {st:?}"),
     }
 }
@@ -124,7 +128,7 @@ where
 }
 
 /// expected view of one stage given the view below it and its current parameter
-fn stage_view(st: &Stage, param: Option<usize>, below: &[u32]) -> Vec<u32> {
+pub(crate) fn stage_view(st: &Stage, param: Option<usize>, below: &[u32]) -> Vec<u32> {
     match st.kind.as_str() {
         "head" => below.iter().copied().take(param.unwrap_or(0)).collect(),
         "tail" => {
@@ -142,6 +146,11 @@ fn stage_view(st: &Stage, param: Option<usize>, below: &[u32]) -> Vec<u32> {
         "filter_map" => {
             let m: u32 = st.arg.parse().unwrap();
             below.iter().copied().filter(|x| passes(m, *x)).map(|x| x + 100).collect()
+        }
+        "sort" => {
+            let mut v = below.to_vec();
+            v.sort();
+            v
         }
         _ => panic!(),
     }
@@ -294,6 +303,25 @@ where
                 parts.push(format!("t{}={}", j, if items.is_empty() { "-".to_string() } else { items.join("+") }));
             }
             out.push_str(&format!("{}{} {}", end, check(&taps, &params, &src, src_ok), parts.join(" ")));
+            if end == 'P' {
+                // C14 for chains: the waker of this poll is registered with every leaf of the stack
+                let registered = |last: Option<crate::m_adapt::Resp>, w: &Option<Waker>, may_end: bool| match last {
+                    Some(crate::m_adapt::Resp::Pending) => w.as_ref().map_or(false, |w| w.will_wake(&waker)),
+                    Some(crate::m_adapt::Resp::End) => may_end,
+                    _ => false,
+                };
+                let mut ok = {
+                    let s = src_q.borrow();
+                    registered(s.last, &s.waker, false)
+                };
+                for (k, st) in stages.iter().enumerate() {
+                    if st.flav == "dynamic" || st.flav == "dyninit" {
+                        let l = limits[k].borrow();
+                        ok = ok && registered(l.last, &l.waker, true);
+                    }
+                }
+                out.push_str(&format!(" ok:reg={}", b2s(ok)));
+            }
         } else if let Some(d) = ev.strip_prefix("d:") {
             let d = parse_diff(d);
             apply_src(&mut src, &mut src_ok, &d);
